@@ -108,7 +108,7 @@ class LazyList:
                 return ret
         else:
             if position < 0:
-                self.generated += list(self)
+                len(self)  # generate the rest of the list exactly once
                 return self.generated[position]
             elif position < len(self.generated):
                 return self.generated[position]
